@@ -136,17 +136,17 @@ CHECKS["C07"] = {
 
 CHECKS["C08"] = {
     "corpus": True,
-    "runs": [R("./vm", {"fn": r"^ZZ_C08_control_(d1|d2_lite)$"}, {"fn": r"^ZZ_C08_control_(d1|d2_b2)$", "wall_timeout": 7200})],
+    "runs": [R("./vm", {"fn": r"^ZZ_C08_control_(d1|d2_lite|d1_text)$"}, {"fn": r"^ZZ_C08_control_(d1|d2_b2|d1_text|d2_text)$", "wall_timeout": 10000})],
     "expect_asserts": [r"C08\.probe-trace", r"C08\.error-status", r"C08\.return-value"],
-    "bounds": {"quick": "all abstract programs of depth 1 (11 statement kinds x leaf outcomes x condition truth sequences of <= 2 true evaluations x 0..2 for-in elements) and depth-2 programs over 7 kinds with one nested compound (lite)",
-               "thorough": "depth 2 with <= 2 compound statements over all 11 kinds"},
+    "bounds": {"quick": "all abstract programs of depth 1 (11 statement kinds x leaf outcomes x condition truth sequences of <= 2 true evaluations x 0..2 for-in elements) and depth-2 programs over 7 kinds with one nested compound (lite); return leaves are `return v`, bare `return` or `return v, w`; switch cases list one or two expressions; the depth-1 programs are also rendered as source text and run through the parser, with the default clause before, between or after the cases",
+               "thorough": "depth 2 with <= 2 compound statements over all 11 kinds, as trees and as source text"},
     "stubs": [], "assumptions": ["break/continue are never placed outside a loop (the statement leaves that open)", "enumerated by forking: skeleton, outcomes and truth values are concrete per path"],
     "outside": ["depth 3", "map iteration order (for-in over slices only)"],
 }
 
 CHECKS["C09"] = {
     "corpus": True,
-    "runs": [R("./vm", {"fn": r"^ZZ_C09_try_defer_(d1|d2_lite)$"}, {"fn": r"^ZZ_C09_try_defer_(d1|d2_b2)$", "wall_timeout": 7200})],
+    "runs": [R("./vm", {"fn": r"^ZZ_C09_try_defer_(d1|d2_lite|d1_text)$"}, {"fn": r"^ZZ_C09_try_defer_(d1|d2_b2|d1_text|d2_text_lite)$", "wall_timeout": 10000})],
     "expect_asserts": [r"C09\.probe-trace", r"C09\.error-status"],
     "bounds": {"quick": "as C08 plus try/catch/finally with outcomes normal/error in finally and functions with 0..2 deferred probe calls, one of which may fail",
                "thorough": "depth 2 with <= 2 compound statements"},
@@ -220,7 +220,7 @@ CHECKS["C02"] = {
 
 CHECKS["C16"] = {
     "corpus": True,
-    "runs": [R("./vm", {"fn": r"^ZZ_C16_(sequential|go_args|pipeline_quick)$"}, {"fn": r"^ZZ_C16_(sequential|go_args|pipeline)$", "wall_timeout": 10000})],
+    "runs": [R("./vm", {"fn": r"^ZZ_C16_(sequential|go_args|go_call_shapes|pipeline_quick)$"}, {"fn": r"^ZZ_C16_(sequential|go_args|go_call_shapes|pipeline)$", "wall_timeout": 10000})],
     "expect_asserts": [r"C16\.fifo/order-and-values", r"C16\.closed/drained-receive-yields-nil", r"C16\.receive-stmt/ok-false-when-closed", r"C16\.go/arguments-before-callee-starts", r"C16\.pipeline/in-order", r"C16\.send-on-closed-is-error"],
     "bounds": {"quick": "sequential: buffered channels of capacity 3 over int64/interface elements, symbolic values; pipelines: 0..2 items, unbuffered / capacity 1, 0..1 relay stage, <= 3 context switches at channel operations (all schedules within that bound)",
                "thorough": "0..3 items, capacity 0..2, <= 4 context switches"},
